@@ -65,7 +65,11 @@ type xLine struct {
 	Pre     []xStep  `json:"pre"`
 	Last    *xLast   `json:"last"`
 	Classes []xClass `json:"classes"`
+	Catchup int      `json:"catchup"`
 }
+
+// catchupLimit is PeerMsgs!CatchupLimit as printed with the class table.
+var catchupLimit = -1
 
 // ---- peer-state projection ----
 type baProj struct {
@@ -257,12 +261,15 @@ func readClasses(path string) ([]xClass, error) {
 			continue
 		}
 		var inner string
-		if json.Unmarshal(line, &inner) != nil || !strings.HasPrefix(inner, `{"classes"`) {
+		if json.Unmarshal(line, &inner) != nil || !strings.Contains(inner, `"classes":[`) {
 			continue
 		}
 		var l xLine
 		if err := json.Unmarshal([]byte(inner), &l); err != nil {
 			return nil, err
+		}
+		if l.Catchup > 0 {
+			catchupLimit = l.Catchup
 		}
 		return l.Classes, nil
 	}
@@ -825,4 +832,74 @@ func lateDelivery() bool {
 		mu.Unlock()
 	})
 	return lateFact
+}
+
+// TestVoteRoundGrowth: the growth probe behind PeerMsgs!CatchupBounded.  ONE peer sends 300 well-formed votes of
+// the node's height, each for a different round nobody tracks, in all verification classes (valid, broken
+// signature, index out of range, address of another validator, key outside the set), through the real Receive
+// and the real handleMsg.  Specified: the node creates vote sets for CatchupLimit of those rounds and refuses
+// the rest; compared: the number of the 300 rounds the real HeightVoteSet tracks afterwards.
+func TestVoteRoundGrowth(t *testing.T) {
+	res := mbt.NewResult()
+	defer res.Write()
+	classes, err := readClasses(os.Getenv("PEER_DUMP"))
+	if err != nil || catchupLimit < 0 {
+		res.Mismatch("infra:classes", fmt.Sprint("no class table / catch-up limit: ", err), nil)
+		return
+	}
+	kinds := []struct {
+		tag string
+		m   func(m *xMsg)
+	}{
+		{"badsig", func(m *xMsg) { m.Sig = "bad" }}, {"wrongindex", func(m *xMsg) { m.Idx = 4 }}, {"wrongaddr", func(m *xMsg) { m.Who = 3 }},
+		{"outsider", func(m *xMsg) { m.Who = 0 }}, {"valid", func(m *xMsg) {}}, {"hugesig", func(m *xMsg) { m.Sig = "huge" }},
+	}
+	for _, first := range []int{0, 4} { // start the mix with an invalid vote / with a valid one
+		for k, c := range classes {
+			if c.Sync {
+				continue
+			}
+			d, err := BuildClass(c)
+			if err != nil {
+				res.Mismatch("infra:class", err.Error(), nil)
+				return
+			}
+			p := d.Rig.NewPeer(false)
+			rs := d.Rig.Nd.CS.GetRoundState()
+			h, r0 := rs.Height, rs.Round+3
+			bad := ""
+			for i := 0; i < 300 && bad == ""; i++ {
+				m := &xMsg{T: "vote", Kind: "vote", Type: 1, H: int64(h), R: int64(r0) + int64(i), Idx: 0, Who: 1, Bid: &xBid{"zero", 0, "zero"}, Sig: "ok"}
+				kinds[(i+first)%len(kinds)].m(m)
+				bz, err := d.Concretize(m)
+				if err != nil {
+					res.Mismatch("infra:concretize", err.Error(), nil)
+					return
+				}
+				o := d.realStep(p, consensus.VoteChannel, bz, false)
+				if o.out.Panic != "" || o.out.Hung || o.hpanic != "" {
+					bad = fmt.Sprintf("vote %d: panic=%q hung=%v handler=%q", i, o.out.Panic, o.out.Hung, o.hpanic)
+				}
+			}
+			res.Count(300)
+			res.Behaviour()
+			tracked := 0
+			votes := d.Rig.Nd.CS.GetRoundState().Votes
+			for i := 0; i < 300; i++ {
+				if votes.Prevotes(r0+uint32(i)) != nil {
+					tracked++
+				}
+			}
+			detail := map[string]interface{}{"class": c.N, "height": h, "first_round": r0, "votes": 300, "mix_starts_with": kinds[first].tag, "tracked": tracked, "specified": catchupLimit}
+			if bad != "" {
+				res.Mismatch("peer:cons:round-growth:panic", "class "+c.N+": "+bad, detail)
+			} else if tracked != catchupLimit {
+				res.Mismatch("peer:cons:round-growth:vote", fmt.Sprintf("class %s: one peer sent 300 well-formed votes for 300 different untracked rounds of height %d (valid / bad signature / wrong index / wrong address / unknown key, starting with %s); the real node now tracks %d of those rounds, specified: %d (PeerMsgs!CatchupLimit: the peer is charged when the round is created, before the vote is verified) - memory grows with every further vote and the peer is never refused",
+					c.N, h, kinds[first].tag, tracked, catchupLimit), detail)
+			}
+			res.Distinct(fmt.Sprintf("growth/%d/%d", k, first))
+			d.Rig.DropPeer(p)
+			d.Rig.Close()
+		}
+	}
 }
